@@ -92,6 +92,77 @@ example : run Gen.poscDb (opFuncSimple Gen.poscDb) []
     = [⟨.none, ⟨3, ⟨.list, [7, -7, 9]⟩, .simple cLength uM⟩⟩,
        ⟨.none, ⟨3, ⟨.list, [3, -4, 4]⟩, .simple cLength uM⟩⟩] := by decide +kernel
 
+/-! #### the rest of the public surface -/
+
+/-- Python slices of `[10, 11, 12, 13, 14]`: `[::-2]`, `[-3:10]`, `[4:0:-1]`, `[1:1]`, `[::0]` -/
+example : pySlice [10, 11, 12, 13, 14] ⟨none, none, some (-2)⟩ = .ok [14, 12, 10] ∧
+    pySlice [10, 11, 12, 13, 14] ⟨some (-3), some 10, none⟩ = .ok [12, 13, 14] ∧
+    pySlice [10, 11, 12, 13, 14] ⟨some 4, some 0, some (-1)⟩ = .ok [14, 13, 12, 11] ∧
+    pySlice [10, 11, 12, 13, 14] ⟨some 1, some 1, none⟩ = .ok ([] : List Nat) ∧
+    pySlice [10, 11, 12, 13, 14] ⟨none, none, some 0⟩ = (.error .value : Except ErrKind (List Nat)) := by decide +kernel
+
+/-- `len`, `array[-1]`, `array[3]`, `array[::2]` (a tuple, not a FixedArray), `CheckValues`, `==` on `(1, 2, 3) m` -/
+example :
+    let a : Obj := ⟨.none, ⟨3, ⟨.tuple, [1, 2, 3]⟩, .simple cLength uM⟩⟩
+    let b : Obj := ⟨.none, ⟨3, ⟨.list, [1, 2, 3]⟩, .simple cLength uM⟩⟩
+    let F := opFuncSimple db0
+    runOp db0 F [] a .len = .ok (.int 3) ∧
+    runOp db0 F [] a (.getItem (-1)) = .ok (.num 3) ∧
+    runOp db0 F [] a (.getItem 3) = .error .index ∧
+    runOp db0 F [] a (.getSlice ⟨none, none, some 2⟩) = .ok (.vals ⟨.tuple, [1, 3]⟩) ∧
+    runOp db0 F [] a (.checkValues (.sized ⟨.list, [7, 8, 9]⟩) none) = .ok .unit ∧
+    runOp db0 F [] a (.checkValues (.sized ⟨.list, [7, 8]⟩) none) = .error .value ∧
+    runOp db0 F [] a (.checkValues (.sized ⟨.list, [7, 8]⟩) (some 2)) = .ok .unit ∧
+    runOp db0 F [b] a (.eq (.store 0)) = .ok (.bool true) ∧
+    runOp db0 F [b] a (.eq .foreign) = .ok (.bool false) ∧
+    runOp db0 F [] a (.createCopyKw none none none .dimension) = .error .type ∧
+    runOp db0 F [] a (.createCopyKw none none none .unitDatabase) = .ok (.obj a) := by decide +kernel
+
+/-- `FixedArray.FromScalars([Scalar(1, 'm'), Scalar(50, 'cm')])`: `TypeError`; with `unit='kg'`: the units error of
+the first value comes first; without scalars and with both keywords: the failed `assert` -/
+example : fromScalars Gen.poscDb .none [⟨.simple cLength uM, 1⟩, ⟨.simple cLength uCm, 50⟩] none none = .error .type ∧
+    fromScalars Gen.poscDb .none [] (some uM) (some cLength) = .error .assertion ∧
+    fromScalars Gen.poscDb .none [] none none = .error .type := by decide +kernel
+
+/-- the size-only `operation_func`: `(1, 2, 3) m * [4, 5, 6] m` is a list of 3, against two values `ValueError` -/
+example :
+    let a : Obj := ⟨.none, ⟨3, ⟨.tuple, [1, 2, 3]⟩, .simple cLength uM⟩⟩
+    (doOperation opFuncShape a .mul (.arr ⟨.list, [4, 5, 6]⟩ (.simple cLength uM)) true).toOption.map
+        (fun r => (r.cls, r.st.dim, r.st.vals.kind, r.st.vals.xs.length)) = some (.none, 3, .list, 3) ∧
+    doOperation opFuncShape a .mul (.arr ⟨.list, [4, 5]⟩ (.simple cLength uM)) true = .error .value := by decide +kernel
+
+/-- a faithful content for the references `⟨0, flat 3⟩` (image, a list in m) and `⟨1, points 3 2⟩` (domain, an ndarray) -/
+private def h0 : Content := fun a =>
+  if a.id = 0 then ⟨.list, (List.range a.len).map (fun (k : Nat) => .num ((k : Rat) + 1)), uM⟩
+  else ⟨.ndarray, (List.range a.len).map (fun (k : Nat) => .point [(k : Rat), 10 * (k : Rat)]), 0⟩
+
+example : Faithful h0 := by
+  intro a
+  unfold h0
+  split <;> simp
+
+private def c0 : Curve := ⟨⟨0, .flat 3⟩, ⟨1, .points 3 2⟩⟩
+
+/-- `curve[-1]` is `(domain[2], image[2])`, `curve[3]` is `IndexError`, `curve[::-2]` slices both containers on their
+own, `repr` shows `(image[k], domain[k])`; a rejected `SetImage` in between changes nothing -/
+example : Curve.new c0.image c0.domain = .ok c0 ∧
+    c0.getItem h0 (-1) = .ok (.point [2, 20], .num 3) ∧
+    c0.getItem h0 3 = .error .index ∧
+    c0.getSlice h0 ⟨none, none, some (-2)⟩ =
+      .ok ((.ndarray, [.point [2, 20], .point [0, 0]]), (.list, [.num 3, .num 1])) ∧
+    c0.getSlice h0 ⟨none, none, some 0⟩ = .error .value ∧
+    c0.repr h0 = ⟨uM, 0, [(.num 1, .point [0, 0]), (.num 2, .point [1, 10]), (.num 3, .point [2, 20])], false⟩ ∧
+    c0.answers h0 [.set (.image ⟨2, .flat 2⟩), .length, .getItem 0] =
+      [.error .value, .ok (.length 3), .ok (.item (.point [0, 0]) (.num 1))] ∧
+    c0.runOps [.set (.image ⟨2, .flat 2⟩), .length, .getItem 0, .repr] = c0 := by decide +kernel
+
+/-- 25 points: the repr shows 21 pairs and the ellipsis; 21 points: all of them, no ellipsis -/
+example :
+    ((⟨⟨0, .flat 25⟩, ⟨0, .flat 25⟩⟩ : Curve).repr h0).items.length = 21 ∧
+    ((⟨⟨0, .flat 25⟩, ⟨0, .flat 25⟩⟩ : Curve).repr h0).ellipsis = true ∧
+    ((⟨⟨0, .flat 21⟩, ⟨0, .flat 21⟩⟩ : Curve).repr h0).items.length = 21 ∧
+    ((⟨⟨0, .flat 21⟩, ⟨0, .flat 21⟩⟩ : Curve).repr h0).ellipsis = false := by decide +kernel
+
 end Examples
 
 end Barril.Fixed
